@@ -4,7 +4,7 @@
    The model is parameterised by a total function [cls] that says, for an object kind, an action
    and a payload, what argument decoding and the method body yield: "decoding returns a value or
    an error" is C07's property and is assumed here (lib/claims/C12.json).  A run is any label
-   sequence accepted by [hrun] from the harness's initial server [hinit]: any number of clients,
+   sequence accepted by [hrun] from a freshly started server ([hstart]: distinct object keys, nothing queued): any number of clients,
    any frames of any type (an unreadable one stands for garbage or a disconnect at any point), any
    interleaving of the connections' process and consumer goroutines, the objects' mailbox
    goroutines and the closers. *)
@@ -14,8 +14,8 @@ Local Open Scope N_scope.
 (* no Deadlock / blocked-for-ever state is reachable: every object's goroutine is idle between two
    mails (never dead, never blocked in a write), every mailbox and consumer queue is within its
    capacity, no endpoint mutex stays held, no connection goroutine is blocked in a write *)
-Theorem C12_holds_safe : forall cls g tr st,
-  hclean g -> hrun cls g hinit tr = Some st -> HInv st.
+Theorem C12_holds_safe : forall cls g st0 tr st,
+  hclean g -> hstart st0 -> hrun cls g st0 tr = Some st -> HInv st.
 Proof. exact c12_safe. Qed.
 Print Assumptions C12_holds_safe.
 
@@ -23,8 +23,8 @@ Print Assumptions C12_holds_safe.
    most MailboxCap + 5 steps, all of them steps of that object's goroutine and of the fresh
    connection's own goroutines (nothing is needed from the hostile client or its connection) —
    unless the requests the object had already accepted contain a terminate that names it *)
-Theorem C12_holds_probe : forall cls g tr st o x pl oid sg u,
-  hclean g -> hrun cls g hinit tr = Some st ->
+Theorem C12_holds_probe : forall cls g st0 tr st o x pl oid sg u,
+  hclean g -> hstart st0 -> hrun cls g st0 tr = Some st ->
   nth_error (objs st) o = Some x -> o_kind x <> KAuth ->
   cls (o_kind x) A_metaObject pl = PArgs oid sg u -> (oid = 0 \/ oid = o_id x) ->
   (List.length (probe_sched st o x pl) <= MailboxCap + 5)%nat /\
@@ -33,6 +33,11 @@ Theorem C12_holds_probe : forall cls g tr st o x pl oid sg u,
                    o_alive x1 = false)).
 Proof. exact c12_probe. Qed.
 Print Assumptions C12_holds_probe.
+
+(* the harness's server (authentication service, directory, a generic service with two objects) is such a start *)
+Theorem C12_start : forall id2, id2 <> 1 -> hstart (hinit_of id2).
+Proof. exact hstart_init. Qed.
+Print Assumptions C12_start.
 
 (* the exception removes exactly what it names: an object stops being alive only by executing a
    terminate request (action 3) addressed to it whose argument is its own id (or 0); holds for
